@@ -130,6 +130,10 @@ def make_clf(kind):
         return c["PWCSpy"](classes=CLASSES, metric="rbf", metric_dict={"gamma": 0.25}, random_state=0)
     if kind == "pwc_dy":
         return c["PWCSpy"](classes=CLASSES, metric=dyadic_kernel, random_state=0)
+    if kind == "pwc_dy_nn":
+        # neighbour limit: the k nearest *training samples* (labeled or not, weighted or not) vote; the speed-up path
+        # (precomputed kernel) and the plain path must pick them from the same set (seed R6C19)
+        return c["PWCSpy"](classes=CLASSES, metric=dyadic_kernel, n_neighbors=2, random_state=0)
     if kind == "gnb":
         from sklearn.naive_bayes import GaussianNB
         from skactiveml.classifier import SklearnClassifier
@@ -619,7 +623,7 @@ def run_case(ctx, case, pending, oracle=True):
         ex[0] = ("init", "ok", r.snap())
     statuses = []
     stop = False
-    dy_exact = kind == "pwc_dy"
+    dy_exact = kind in ("pwc_dy", "pwc_dy_nn")
     for k, op in enumerate(case["ops"]):
         sts = []
         for r, sp, ex, em in zip(runners, specs, exps, emitted):
@@ -722,7 +726,7 @@ def run_case(ctx, case, pending, oracle=True):
             if len(ctx.violations) > nv:
                 stop = True
         # permuted reference (the property speaks of a multiset): PWC only, exact for the dyadic kernel
-        if kind.startswith("pwc") and sp0.clf is not None and sp0.clf[0] == "fit" and len(sp0.clf[1]) > 1 and outs[0]["predict_freq"][0] == "ok":
+        if kind.startswith("pwc") and not kind.endswith("_nn") and sp0.clf is not None and sp0.clf[0] == "fit" and len(sp0.clf[1]) > 1 and outs[0]["predict_freq"][0] == "ok":
             perm = tuple(reversed(sp0.clf[1]))
             refp = r0.reference(("fit", perm))
             m = same(outs[0]["predict_freq"][1], ref_predict(refp, "predict_freq", Xq), exact_only=dy_exact)
@@ -982,7 +986,7 @@ def gen_pre(rng, n, full=False):
 
 
 def gen_case(rng, kind=None, length=None):
-    kind = kind or rng.choice(["spy", "spy", "spypf", "spypf", "pwc_rbf", "pwc_dy", "pwc_dy", "gnb"])
+    kind = kind or rng.choice(["spy", "spy", "spypf", "spypf", "pwc_rbf", "pwc_dy", "pwc_dy", "pwc_dy_nn", "gnb"])
     n = rng.randint(3, 6)
     pts = rng.sample([(a, b) for a in range(4) for b in range(3)], n)
     y0 = [rng.choice(LABELS) for _ in range(n)]
